@@ -71,6 +71,11 @@ def check(model: Model, run: Run) -> None:
             continue
         c = calls[0]
         barg = c.args[1]
+        if isinstance(barg, ast.Name):
+            # a hoisted local: follow it when it has exactly one definition
+            ds = [n for n in walk_no_nested(msgs.node) if isinstance(n, ast.Assign) and dotted(n.targets[0]) == barg.id]
+            if len(ds) == 1:
+                barg = ds[0].value
         lfb = linear(barg, folder, msgs)
         counted = set()
         if lfb is not None:
